@@ -67,7 +67,7 @@ let render = function
   | XT (TPred (p, x)) -> Printf.sprintf "pred %s %s" (str_pred p) (i x)
   | XT (TFeed (a, x)) -> Printf.sprintf "feed %s %s" (i a) (i x)
   | XT TFire -> "fire"
-  | XT TUaf -> "uaf"
+  | XT (TUaf k) -> "uaf " ^ n k
   | XRoot o -> "root " ^ str_out o
   | XSkip -> "skip"
 let outcome_of t c =
@@ -89,8 +89,9 @@ let () =
       let (csx, toks') = parse toks in
       let (esx, _) = parse toks' in
       let v = if vr = "fixed" then fixed else if vr = "as_written" then as_written
-        else if vr = "tu_only" then { v_tu_fixed = true; v_si_fixed = false }
-        else if vr = "si_only" then { v_tu_fixed = false; v_si_fixed = true } else failwith "variant" in
+        else if String.length vr = 4 then
+          { v_tu_fixed = (vr.[0] = '1'); v_si_fixed = (vr.[1] = '1'); v_sierr_fixed = (vr.[2] = '1'); v_te_fixed = (vr.[3] = '1') }
+        else failwith "variant" in
       let rs = exec v (cons_of csx) (ex esx) (nat_of_int (int_of_string pre)) (script_of stoks) in
       String.concat ";" (List.map render (x_tr rs)) ^ " # roots=" ^ string_of_int (int_of_nat (x_roots rs))
     | _ -> "ERR args")
